@@ -12,6 +12,7 @@ Variables (zero one : F) (add mul sub : F -> F -> F) (opp : F -> F) (div : F -> 
 Hypothesis Fth : field_theory zero one add mul sub opp div inv (@eq F).
 Add Field Ff : Fth.
 Variable eq_dec : forall x y : F, {x = y} + {x <> y}.
+Variable idx_of : F -> option nat.
 Notation "0" := zero. Notation "1" := one.
 Infix "+" := add. Infix "*" := mul. Infix "-" := sub. Infix "/" := div.
 
@@ -32,9 +33,9 @@ Notation getv := (getv F zero mul eq_dec).
 Notation step_r1c := (step_r1c F zero add mul sub div eq_dec).
 Notation step_sparse := (step_sparse F zero one add mul opp inv eq_dec).
 Notation check_sparse := (check_sparse F zero one add mul eq_dec).
-Notation step := (step F zero one add mul sub opp div inv eq_dec).
-Notation run := (run F zero one add mul sub opp div inv eq_dec).
-Notation solve := (solve F zero one add mul sub opp div inv eq_dec).
+Notation step := (step F zero one add mul sub opp div inv eq_dec idx_of).
+Notation run := (run F zero one add mul sub opp div inv eq_dec idx_of).
+Notation solve := (solve F zero one add mul sub opp div inv eq_dec idx_of).
 
 (* ------------------------------------------------------------ extension order *)
 
@@ -443,7 +444,7 @@ Qed.
 
 Lemma step_ok orc i v ins v' : step orc i v ins = Ok v' -> extends v v' /\ holds v' ins.
 Proof.
-  destruct ins as [cid l r o|cid xa xb xc ql qr qo qm qc cm|cid xa xb xc qm|cid xa xb xc ql qr qc|cid xa ql qm|hid ins start nout];
+  destruct ins as [cid l r o|cid xa xb xc ql qr qo qm qc cm|cid xa xb xc qm|cid xa xb xc ql qr qc|cid xa ql qm|hid ins start nout|entries ins start];
     cbn [Solver.step Solver.holds].
   - apply step_r1c_ok.
   - destruct cm.
@@ -479,11 +480,15 @@ Proof.
     destruct (orc hid nout xs) as [[outs ok]|]; [|discriminate].
     destruct (negb _); [discriminate|]. bind_ok_as H as v1 E0. destruct ok; [|discriminate]. injection H as <-.
     split; [eapply set_range_ext; eassumption|exact I].
+  - (* lookup *)
+    unfold Solver.step_lookup. intros H. bind_ok_as H as es E. bind_ok_as H as qs E0.
+    destruct (lookup_all F idx_of es qs) as [outs|]; [|discriminate].
+    split; [eapply set_range_ext; eassumption|exact I].
 Qed.
 
 Lemma holds_ext v v' ins : extends v v' -> holds v ins -> holds v' ins.
 Proof.
-  intros He. destruct ins as [cid l r o|cid xa xb xc ql qr qo qm qc cm| | | |]; cbn [Solver.holds]; try tauto;
+  intros He. destruct ins as [cid l r o|cid xa xb xc ql qr qo qm qc cm| | | | |]; cbn [Solver.holds]; try tauto;
     try (apply holds_sparse_ext; assumption).
   - apply holds_r1c_ext; assumption.
   - destruct cm; [tauto|apply holds_sparse_ext; assumption].
@@ -533,9 +538,10 @@ Lemma step_err_kind orc i v ins k j : step orc i v ins = Err k j ->
   | IMul _ _ _ _ _ _ | IAdd _ _ _ _ _ _ _ _ => False
   | IBool _ _ _ _ _ => k = EBool
   | IHint _ _ _ _ _ => k = EOther \/ k = EHint
+  | ILookup _ _ _ _ => k = EOther
   end.
 Proof.
-  destruct ins as [cid l r o|cid xa xb xc ql qr qo qm qc cm|cid xa xb xc qm|cid xa xb xc ql qr qc|cid xa ql qm|hid ins start nout];
+  destruct ins as [cid l r o|cid xa xb xc ql qr qo qm qc cm|cid xa xb xc qm|cid xa xb xc ql qr qc|cid xa ql qm|hid ins start nout|entries ins start];
     cbn [Solver.step].
   - unfold Solver.step_r1c.
     destruct (scan v l) as [a ua]; destruct (scan v r) as [b ub]; destruct (scan v o) as [c uo].
@@ -552,23 +558,29 @@ Proof.
     destruct (negb _); [injection H as <- _; left; reflexivity|].
     destruct (set_range_cases outs v start) as [[v1 E1]|E1]; rewrite E1 in H; cbn [bind] in H; [|discriminate].
     destruct ok; [discriminate|]. injection H as <- _. right; reflexivity.
+  - unfold Solver.step_lookup. intros H.
+    destruct (hev_all_cases v entries) as [[es E]|E]; rewrite E in H; cbn [bind] in H; [|discriminate].
+    destruct (hev_all_cases v ins) as [[qs E0]|E0]; rewrite E0 in H; cbn [bind] in H; [|discriminate].
+    destruct (lookup_all F idx_of es qs) as [outs|]; [|injection H as <- _; reflexivity].
+    destruct (set_range_cases outs v start) as [[v1 E1]|E1]; rewrite E1 in H; discriminate.
 Qed.
 
 Lemma step_unsat orc i j k v ins : step orc i v ins = Err k j -> k = EUnsat \/ k = EDivZero -> violated_forever v ins.
 Proof.
   intros H Hk. pose proof (step_err_kind _ _ _ _ _ _ H) as K.
-  destruct ins as [cid l r o|cid xa xb xc ql qr qo qm qc cm|cid xa xb xc qm|cid xa xb xc ql qr qc|cid xa ql qm|hid ins start nout];
+  destruct ins as [cid l r o|cid xa xb xc ql qr qo qm qc cm|cid xa xb xc qm|cid xa xb xc ql qr qc|cid xa ql qm|hid ins start nout|entries ins start];
     cbn [Solver.step] in H; unfold violated_forever; cbn [Solver.holds]; try contradiction; try discriminate.
   - subst k. eapply step_r1c_unsat; eassumption.
   - destruct cm; [discriminate|eapply step_sparse_unsat; eassumption].
   - subst k. destruct Hk; discriminate.
   - destruct K; subst k; destruct Hk; discriminate.
+  - subst k. destruct Hk; discriminate.
 Qed.
 
 Lemma step_bool_err orc i j v ins : step orc i v ins = Err EBool j -> violated_forever v ins.
 Proof.
   intros H. pose proof (step_err_kind _ _ _ _ _ _ H) as K.
-  destruct ins as [cid l r o|cid xa xb xc ql qr qo qm qc cm|cid xa xb xc qm|cid xa xb xc ql qr qc|cid xa ql qm|hid ins start nout];
+  destruct ins as [cid l r o|cid xa xb xc ql qr qo qm qc cm|cid xa xb xc qm|cid xa xb xc ql qr qc|cid xa ql qm|hid ins start nout|entries ins start];
     try contradiction; try discriminate; try (destruct K; discriminate).
   cbn [Solver.step] in H. unfold Solver.step_bool in H. unfold violated_forever. cbn [Solver.holds].
   intros v' He (_ & _ & _ & _ & _ & Heq).
